@@ -35,6 +35,8 @@ type G3Case struct {
 	Raw   string `json:"raw"`
 	// the raw file contains a line that is no known command: the parser has to reject the file
 	ExpectParseErr bool `json:"expectParseErr,omitempty"`
+	// the raw file has a sub-command that is indented less than the first sub-command of its block: "Bad indentation"
+	ExpectBadIndent bool `json:"expectBadIndent,omitempty"`
 }
 
 const (
@@ -767,6 +769,40 @@ func g3TextOracle(c G3Case, fin *g3Table, warned map[string]bool, count func(str
 
 type g3Gen struct{ r *RNG }
 
+// g3Indent: indentation of the raw file's sub-commands (chosen by a hash of the case, no random draws).
+// 1 case in 25: every sub-command two columns deeper (the first sub-command of a block sets the depth: same result);
+// 1 case in 25: the first sub-command of a block with at least two deeper than the second: the parser has to refuse.
+func g3Indent(c *G3Case) {
+	if c.ExpectParseErr || c.Raw == "" {
+		return
+	}
+	h := g3Hash("indent" + c.V4 + "\x00" + c.V6 + "\x00" + c.Raw)
+	lines := strings.Split(strings.TrimSuffix(c.Raw, "\n"), "\n")
+	switch h % 25 {
+	case 1:
+		for i, l := range lines {
+			if strings.HasPrefix(l, " ") {
+				lines[i] = "  " + l
+			}
+		}
+	case 2:
+		done := false
+		for i := 0; i+1 < len(lines) && !done; i++ {
+			if strings.HasPrefix(lines[i], " ") && strings.HasPrefix(lines[i+1], " ") && (i == 0 || !strings.HasPrefix(lines[i-1], " ")) {
+				lines[i] = "  " + lines[i]
+				done = true
+			}
+		}
+		if !done {
+			return
+		}
+		c.ExpectBadIndent = true
+	default:
+		return
+	}
+	c.Raw = strings.Join(lines, "\n") + "\n"
+}
+
 func g3Hash(t string) uint32 {
 	h := uint32(2166136261)
 	for i := 0; i < len(t); i++ {
@@ -1094,6 +1130,7 @@ func (g *g3Gen) genASA() G3Case {
 		c.Raw = g.pick("unexpected foo\n", "access-lst X extended permit ip any4 any4\n", "crypto mapp M 1 set peer 1.2.3.4\n") + c.Raw
 		c.ExpectParseErr = true
 	}
+	g3Indent(&c)
 	return c
 }
 
@@ -1180,6 +1217,7 @@ func (g *g3Gen) genIOS() G3Case {
 		c.Raw = g.pick("unexpected foo\n", "ip acces-list extended X\n") + c.Raw
 		c.ExpectParseErr = true
 	}
+	g3Indent(&c)
 	return c
 }
 
@@ -1216,6 +1254,13 @@ func g3Corpus() []G3Case {
 			Raw: "ip access-list extended RCA\n permit ip any host 10.0.0.2\ncrypto map M 20 ipsec-isakmp\n set peer 1.2.3.4\n set ip access-group RCA out\n" +
 				"interface Ethernet0\n crypto map M\n"},
 		{Model: "IOS", V4: "ip route 10.20.0.0 255.248.0.0 10.1.2.3\n", Raw: "ip route 10.22.0.0 255.255.0.0 10.1.2.4\nip route 10.20.0.0 255.248.0.0 10.1.2.3\n"},
+		// indentation of raw sub-commands: deeper but uniform = same result; decreasing = refused
+		{Model: "IOS", V4: "ip access-list extended A1\n permit ip host 10.1.1.1 any\n deny ip any any\ninterface Ethernet0\n ip address 10.0.0.1 255.255.255.0\n ip access-group A1 in\n",
+			Raw: "ip access-list extended X1\n    permit ip host 10.7.7.7 any\n    deny ip host 10.7.7.8 any\ninterface Ethernet0\n    ip access-group X1 in\n"},
+		{Model: "IOS", V4: "ip access-list extended A1\n permit ip host 10.1.1.1 any\n deny ip any any\ninterface Ethernet0\n ip address 10.0.0.1 255.255.255.0\n ip access-group A1 in\n",
+			Raw: "ip access-list extended X1\n   permit ip host 10.7.7.7 any\n deny ip host 10.7.7.8 any\ninterface Ethernet0\n ip access-group X1 in\n", ExpectBadIndent: true},
+		{Model: "ASA", V4: "object-group network g1\n network-object host 10.9.9.1\naccess-list A1 extended permit ip object-group g1 any4\naccess-group A1 in interface if0\n",
+			Raw: "object-group network gr1\n  network-object host 10.8.8.1\n network-object host 10.8.8.2\naccess-list X1 extended permit ip object-group gr1 any4\naccess-group X1 in interface if0\n", ExpectBadIndent: true},
 		// IPv6 file that references one non-simple object from two new commands: the model answers
 		// `unmodelled` (second read of an object whose commands Go has mutated), the text-line oracle judges the real result
 		{Model: "ASA",
@@ -1257,6 +1302,9 @@ func runCisco3(ctx *Ctx, res *Result, drv *Nadrv) {
 			if c.ExpectParseErr && strings.Contains(r.perr, "Unexpected command") {
 				res.Count("g3:unknown-command-rejected-as-specified")
 				judged++
+			} else if c.ExpectBadIndent && strings.Contains(r.perr, "Bad indentation in subcommands") {
+				res.Count("g3:decreasing-indentation-rejected-as-specified")
+				judged++
 			} else {
 				fail("generated_input_rejected_by_parser", "a file the generator wrote from known commands only is rejected: "+r.perr)
 			}
@@ -1265,6 +1313,13 @@ func runCisco3(ctx *Ctx, res *Result, drv *Nadrv) {
 		if c.ExpectParseErr {
 			fail("raw_unknown_command_not_reported", "raw file with a line that is no known command is accepted")
 			return
+		}
+		if c.ExpectBadIndent {
+			fail("raw_bad_indentation_not_reported", "raw file with a sub-command indented less than the first sub-command of its block is accepted (the line would be read as something else or dropped)")
+			return
+		}
+		if strings.Contains(c.Raw, "\n   ") {
+			res.Count("g3:raw-subcommands-indented-deeper")
 		}
 		if r.stages["v4"] == nil {
 			res.Count("g3:no-stage")
